@@ -71,7 +71,7 @@ Theorem lookup_safe w c path vers lines evs w' c' :
   exists data id text rest tmsg t,
     lines = result_lines path vers data /\
     parse_record data = Index.Ok (id, text, rest) /\
-    signed_tree V vs tmsg t /\ (id < Codec.tN t /\ 0 < Codec.tN t) /\
+    signed_tree V vs tmsg t /\ 0 <= id < Codec.tN t /\
     node_auth NodeAt (Codec.tH t) (Codec.tN t) (stored_hash_index 0 id) (leaf_hash text).
 Proof.
   intros HC Hk H. eapply lookup_spec in H as (_ & _ & _ & Hok & _); eauto.
@@ -83,35 +83,24 @@ Qed.
 Hypothesis nodeat_record_path : forall R N id x,
   0 <= id < N -> N < 2 ^ 62 -> NodeAt R N 0 id x -> exists p, check_record node_hash p N R id x = Index.Ok tt.
 
-Lemma stored_hash_index_0_neg id : id <= 0 -> stored_hash_index 0 id = stored_hash_index 0 0.
-Proof.
-  intros H. unfold stored_hash_index, level_up. cbn [Z.iter].
-  destruct id; cbn; try reflexivity. lia.
-Qed.
-
-(* a response with a negative id is checked as record 0 (StoredHashIndex(0, id) = 0 for id <= 0) *)
 Theorem lookup_safe_path w c path vers lines evs w' c' :
   ClientInv c -> (c_init c = None -> key_ok w) ->
   lookup w c path vers = (LOk lines, evs, w', c') ->
   exists data id text rest tmsg t p,
     lines = result_lines path vers data /\
     parse_record data = Index.Ok (id, text, rest) /\
-    signed_tree V vs tmsg t /\ Z.max id 0 < Codec.tN t /\
-    check_record node_hash p (Codec.tN t) (Codec.tH t) (Z.max id 0) (leaf_hash text) = Index.Ok tt.
+    signed_tree V vs tmsg t /\ 0 <= id < Codec.tN t /\
+    check_record node_hash p (Codec.tN t) (Codec.tH t) id (leaf_hash text) = Index.Ok tt.
 Proof.
   intros HC Hk H. destruct (lookup_safe _ _ _ _ _ _ _ _ HC Hk H)
-    as (d & id & text & rest & tmsg & t & Hl & Hp & Hs & [Hlt Hpos] & (l & o & Hsplit & Hnode)).
+    as (d & id & text & rest & tmsg & t & Hl & Hp & Hs & Hid & (l & o & Hsplit & Hnode)).
   assert (Hr := signed_range V vs signed_small _ _ Hs).
-  assert (Hmax : 0 <= Z.max id 0 < Codec.tN t) by lia.
-  assert (Hidx : stored_hash_index 0 id = stored_hash_index 0 (Z.max id 0)).
-  { destruct (Z.max_spec id 0) as [[? ->]|[? ->]]; [|reflexivity]. apply stored_hash_index_0_neg. lia. }
-  rewrite Hidx in Hsplit.
-  assert (Hb : stored_hash_index 0 (Z.max id 0) < 2 ^ 63).
+  assert (Hb : stored_hash_index 0 id < 2 ^ 63).
   { rewrite stored_hash_index_first by lia. rewrite level_up_0.
-    pose proof (first_index_le_double (Z.max id 0) ltac:(lia)). lia. }
-  rewrite (split_index 0 (Z.max id 0)) in Hsplit by lia. injection Hsplit as <- <-.
-  destruct (nodeat_record_path _ _ _ _ Hmax ltac:(lia) Hnode) as (p & Hp').
-  exists d, id, text, rest, tmsg, t, p. repeat (split; [assumption|]). split; [lia | exact Hp'].
+    pose proof (first_index_le_double id ltac:(lia)). lia. }
+  rewrite (split_index 0 id) in Hsplit by lia. injection Hsplit as <- <-.
+  destruct (nodeat_record_path _ _ _ _ Hid ltac:(lia) Hnode) as (p & Hp').
+  exists d, id, text, rest, tmsg, t, p. repeat (split; [assumption|]). exact Hp'.
 Qed.
 
 (* ---- histories: several clients over one shared world ------------------------------------------ *)
